@@ -65,6 +65,7 @@ type Ev struct {
 	ChaosEscaped         bool   // a structural call inside a removal notification did not panic
 	UnlockedAfterNested  bool   // the notification opened and closed as many nested queries as the world allowed and found the world unlocked
 	Foreign              bool   // event mentions an ID that is not a live type
+	RetainedChanged      bool   // a relation ID pointer kept from an EARLIER event no longer shows the ID it showed at delivery
 	ValT                 int    // live type whose value the listener read (and then overwrote) at delivery, -1 = none
 	ValAtDelivery        []byte // what it read
 	Wrote                []byte // what it wrote through the Get pointer (legal: the world is unlocked)
@@ -102,6 +103,13 @@ type Sys struct {
 
 	listenerRes bool
 	applySeq    int
+	probeID     ecs.ID // load twins: a component type to call the unchecked accessors with
+	hasProbe    bool
+
+	// relation ID pointers kept from the previous event, and what they showed then (an event is a record: what it
+	// points to must not change afterwards, whatever this or any other world does)
+	keptRel    [2]*ecs.ID
+	keptRelVal [2]ecs.ID
 }
 
 var allSubs = event.Subscription(63)
@@ -304,6 +312,19 @@ func (l *recListener) Notify(w *ecs.World, e ecs.EntityEvent) {
 	ev.RemovedIDs, d2, f4 = s.idsToSet(e.RemovedIDs)
 	ev.IDsDup = d1 || d2
 	ev.Foreign = f1 || f2 || f3 || f4
+	for i, p := range s.keptRel {
+		if p != nil && *p != s.keptRelVal[i] {
+			ev.RetainedChanged = true
+		}
+	}
+	if l.sink < 0 {
+		s.keptRel = [2]*ecs.ID{e.OldRelation, e.NewRelation}
+		for i, p := range s.keptRel {
+			if p != nil {
+				s.keptRelVal[i] = *p
+			}
+		}
+	}
 	ev.OldRel, ev.NewRel = -1, -1
 	if e.OldRelation != nil {
 		if k, ok := s.idxOfID[idOf(*e.OldRelation)]; ok {
@@ -851,6 +872,10 @@ func (s *Sys) Apply(op *COp) (res Result) {
 			res.Ptr = w.Get(op.Ent, s.IDs[op.Type])
 		case "Has":
 			res.Bool = w.Has(op.Ent, s.IDs[op.Type])
+		case "HasUnchecked":
+			res.Bool = w.HasUnchecked(op.Ent, s.IDs[op.Type])
+		case "GetUnchecked":
+			res.Ptr = w.GetUnchecked(op.Ent, s.IDs[op.Type])
 		case "Mask":
 			m := w.Mask(op.Ent)
 			res.Any = m
